@@ -96,6 +96,9 @@ def run(case):
         elif kind == "col":
             c = np.array(ov, dtype=dt2)
             other = c.reshape(n, 1)
+            if case.get("swapcol") and c.dtype.itemsize > 1:
+                other = other.astype(c.dtype.newbyteorder())          # the column in non-native byte order
+                tags.append("col:byteswapped")
             ob = c[rowidx]
             if n == 1:
                 tags.append("onerow-col")
@@ -242,6 +245,10 @@ def gen_case(rng, lens, dtype, vclass, uf=None, kind=None, side=None, dtype2=Non
         dtype2 = None
     elif kind == "col":
         other = _vals(rng, dtype2, n, vclass)
+        if rng.random() < 0.15:
+            c_ = mk_case(lens, dtype, vals, uf, kind, side, other, dtype2, op, vclass)
+            c_["swapcol"] = True
+            return c_
     else:  # collist: python numbers
         other = [rng.choice([0, 1, 2, 5, -3]) for _ in range(n)] if rng.random() < 0.7 else [rng.choice([0.5, 2.0, -1.25]) for _ in range(n)]
         dtype2 = None
